@@ -77,6 +77,8 @@ class FakeSocket:
         self.opts = {}
         self.calls = dict(send=0, recv=0)
         self.last_io_step = None    # net.now at the last byte moved in either direction
+        self.io_tymes = []          # tymes (net.tymth) at which bytes moved through this socket
+        self.closed_tyme = None
         self.was_connected = False
         net.ev("socket", self.sid, self.owner)
 
@@ -235,6 +237,8 @@ class FakeSocket:
         self.out.inflight.append([ready, chunk])
         self.out.total_accepted += k
         self.last_io_step = net.now
+        if net.tymth is not None:
+            self.io_tymes.append(net.tymth())
         net.note_io(self, "tx", chunk)
         net.ev("send", self.sid, n, k, delay)
         return k
@@ -268,6 +272,8 @@ class FakeSocket:
             del self.inp.rx[:k]
             self.inp.total_read += k
             self.last_io_step = net.now
+            if net.tymth is not None:
+                self.io_tymes.append(net.tymth())
             net.note_io(self, "rx", data)
             net.ev("recv", self.sid, bufsize, k)
             return data
@@ -330,6 +336,8 @@ class FakeSocket:
             else:
                 self._send_fin()
         self.state = "closed"
+        if net.tymth is not None:
+            self.closed_tyme = net.tymth()
         net.ev("close", self.sid)
 
     def detach(self):
@@ -377,6 +385,7 @@ class SimNet:
         self._lport = 56000
         self.module = SocketModule(self)
         self.io_log = {}            # sid -> dict(tx=bytearray, rx=bytearray)
+        self.tymth = None           # optional: virtual time source used to stamp traffic
         self.op_calls = {}
 
     # -- bookkeeping
